@@ -55,3 +55,4 @@ u8* __cxa_begin_catch(u8* p) { return p; }
 void __cxa_end_catch(void) {}
 void __cxa_rethrow(void) { __CPROVER_assume(0); }
 #endif
+void v_throw_std(u32 kind) { __CPROVER_assume(0); }   /* std::__throw_* without --eh: the path ends (stated) */
